@@ -164,13 +164,20 @@ impl Check for C07 {
     fn strategy(&self, tier: Tier) -> BoxedStrategy<Case> {
         (
             any::<u64>(),
-            (epcfg_strategy(), prop_oneof![3 => Just(32u32), 1 => 1u32..4]),
+            // limits: generous, exactly the number of clients (no refusal is ever legitimate then), or tight
+            (epcfg_strategy(), prop_oneof![3 => Just(32u32), 1 => Just(0u32), 1 => 1u32..4], prop_oneof![3 => Just(4096u32), 2 => Just(0u32), 1 => 1u32..4]),
             proptest::collection::vec(client_strategy(), 1..tier.pick(5, 10)),
             proptest::collection::vec(forge_strategy(), 0..tier.pick(10, 30)),
             60u16..tier.pick(400, 1200),
             prop_oneof![Just(10_000u32), Just(30_000u32), Just(100_000u32), Just(400_000u32)],
         )
-            .prop_map(|(seed, (ep, max_active), clients, forges, ticks, dt_us)| Case { seed, server: ServerCfg { max_total: 4096, max_active, handshake_errors: true, ep }, clients, forges, ticks, dt_us })
+            .prop_map(|(seed, (ep, max_active, max_total), clients, forges, ticks, dt_us)| {
+                let n = clients.len() as u32;
+                // 0 stands for "exactly as many as there are clients"
+                let max_active = if max_active == 0 { n } else { max_active };
+                let max_total = if max_total == 0 { n } else { max_total };
+                Case { seed, server: ServerCfg { max_total, max_active, handshake_errors: true, ep }, clients, forges, ticks, dt_us }
+            })
             .boxed()
     }
 
@@ -183,7 +190,7 @@ impl Check for C07 {
     }
 
     fn rule(&self) -> String {
-        "case = World with a real Server and 1-4 (quick) real Clients whose configurations are generated independently (compatible or not), each on its own link with per-datagram fates for the handshake frames (delay up to 3 s, drop, duplicate up to 5 s apart, corrupt), starting at generated ticks (simultaneous handshakes), plus forged handshake / disconnect frames injected at generated moments with spoofed source addresses (a client's address towards the server, the server's address towards a client) carrying random nonces, genuine nonces +-1, the genuine current nonce, or the nonce of an earlier attempt. After Connect each client runs an ordered echo stream through the server, and the server may push a burst of Reliable packets larger than the client's advertised receive allocation. Monitor oracle over wire and events: server Connect(a) only after an ACK from a carrying the nonce of the latest SYN-ACK sent to a was delivered; client Connect only after a SYN-ACK echoing its SYN nonce was delivered; at most one Connect per client and per server-side connection; the server's Connect never precedes the client's, and once a client is connected and frames are delivered promptly the server reports its Connect within three SYN-ACK repeat intervals (as long as its 22 s handshake budget and the client's timeout allow); first data frame ids equal the advertised nonces; refusals carry the error the documented rule demands and the client reports the same error; no Error event on a client that has connected unless it is a Timeout; echo streams arrive in order without gaps for Reliable packets; bytes per second on the wire stay within min(local max_send_rate, peer max_receive_rate); the bytes the server has outstanding towards a client (fragment-rounded, judged from the wire and the acks delivered) never exceed the max_receive_alloc that client advertised. Non-trivial = at least one handshake frame was lost, duplicated, corrupted or forged. Distinct = distinct serialised case.".into()
+        "case = World with a real Server and 1-4 (quick) real Clients whose configurations are generated independently (compatible or not), each on its own link with per-datagram fates for the handshake frames (delay up to 3 s, drop, duplicate up to 5 s apart, corrupt), starting at generated ticks (simultaneous handshakes), plus forged handshake / disconnect frames injected at generated moments with spoofed source addresses (a client's address towards the server, the server's address towards a client) carrying random nonces, genuine nonces +-1, the genuine current nonce, or the nonce of an earlier attempt. After Connect each client runs an ordered echo stream through the server, and the server may push a burst of Reliable packets larger than the client's advertised receive allocation. Monitor oracle over wire and events: server Connect(a) only after an ACK from a carrying the nonce of the latest SYN-ACK sent to a was delivered; client Connect only after a SYN-ACK echoing its SYN nonce was delivered; at most one Connect per client and per server-side connection; the server's Connect never precedes the client's, and once a client is connected and frames are delivered promptly the server reports its Connect within three SYN-ACK repeat intervals (as long as its 22 s handshake budget and the client's timeout allow); first data frame ids equal the advertised nonces; refusals carry the error the documented rule demands and the client reports the same error (ServerFull only when the server's limits are below the number of clients: a client is never refused on account of its own pending entry); no Error event on a client that has connected unless it is a Timeout; echo streams arrive in order without gaps for Reliable packets; bytes per second on the wire stay within min(local max_send_rate, peer max_receive_rate); the bytes the server has outstanding towards a client (fragment-rounded, judged from the wire and the acks delivered) never exceed the max_receive_alloc that client advertised. Non-trivial = at least one handshake frame was lost, duplicated, corrupted or forged. Distinct = distinct serialised case.".into()
     }
 
     fn assumptions(&self) -> Vec<String> {
@@ -409,7 +416,7 @@ impl Check for C07 {
                         if !was_connected && *err != SErr::Timeout && !forged_current_error.contains(&a) {
                             // must match the documented refusal rule
                             let want = expected_refusal(&c.server, &c.clients[k].cfg);
-                            let full_possible = c.server.max_active < n as u32;
+                            let full_possible = c.server.max_active < n as u32 || c.server.max_total < n as u32;
                             let ok = match want {
                                 Some(wanted) => *err == wanted || (*err == SErr::ServerFull && full_possible),
                                 None => *err == SErr::ServerFull && full_possible,
